@@ -36,7 +36,7 @@ ASSUMPTIONS = [
     "load_jobs / load_search_value / load_out_from_all_jobs / load_metadata_from_all_jobs return live references on MemoryStorage (by reading); the property only names load_job / load_search as snapshots, so only those are re-compared",
     "concurrency: each client operation is atomic on the server (GIL + certificate); real OS schedules are sampled, not enumerated - the Coq theorem C13_interleaving covers every schedule of atomic operations",
 ]
-RULE = ("exhaustive: every history of length <= L over a fixed 18-operation alphabet (2 searches x 3 jobs x 2 keys) with a full audit after every step; "
+RULE = ("exhaustive: every history of length L (4 quick / 5 thorough; all shorter ones are its prefixes) over a fixed 18-operation alphabet (2 searches x 3 jobs x 2 keys) with a full audit after every step, in batches of 18^(L-2); "
         "random: generated histories (length <= 60 quick / 200 thorough) over all 17 public methods, valid and invalid ids, nested mutable values; "
         "non-trivial = at least one successful store followed by a load of the same job, or an error answer")
 
@@ -510,25 +510,45 @@ def alphabet_op(a, t):
 NALPHA = 18
 
 
-def gen_exhaustive(maxlen_mem, maxlen_shared_sample, nshared):
+def gen_exhaustive(length, nshared):
+    """Every history of exactly `length` operations (its prefixes are checked on the way: outputs and a full audit are
+    compared after every step), in batches that share their first two operations; plus a sample on both storages."""
     def gen(rng, tier):
-        L = 2 if tier == "search" else maxlen_mem
-        allh = []
-        for n in range(1, L + 1):
-            for h in itertools.product(range(NALPHA), repeat=n):
-                allh.append(list(h))
-        shared_pick = set(rng.sample(range(len(allh)), min(nshared, len(allh))))
-        for i, h in enumerate(allh):
-            yield dict(alpha=h, backends=["memory", "shared"] if i in shared_pick else ["memory"])
+        if tier == "search":
+            for h in itertools.product(range(NALPHA), repeat=2):
+                yield dict(alpha=list(h), backends=["memory", "shared"])
+            return
+        for pre in itertools.product(range(NALPHA), repeat=2):
+            yield dict(prefix=list(pre), extend=length - 2, backends=["memory"])
+        for _ in range(nshared):
+            yield dict(alpha=[rng.randrange(NALPHA) for _ in range(length)], backends=["memory", "shared"])
     return gen
 
 
+def check_alpha(alpha, backends):
+    ops = [alphabet_op(a, t) for t, a in enumerate(alpha)]
+    return check_history(dict(ops=ops, audit="full", every=1, svkeys=["ka", "kb"], metakeys=["ka", "kb"], backends=backends))
+
+
 def check_exhaustive(case):
-    ops = [alphabet_op(a, t) for t, a in enumerate(case["alpha"])]
-    return check_history(dict(ops=ops, audit="full", every=1, svkeys=["ka", "kb"], metakeys=["ka", "kb"], backends=case["backends"]))
+    if "prefix" not in case:
+        return check_alpha(case["alpha"], case["backends"])
+    n = 0
+    for ext in itertools.product(range(NALPHA), repeat=case["extend"]):
+        alpha = case["prefix"] + list(ext)
+        r = check_alpha(alpha, case["backends"])
+        n += 1
+        if not r["ok"]:
+            r["detail"] = dict(alpha=alpha, ops=[alphabet_op(a, t) for t, a in enumerate(alpha)], inner=r.get("detail"))
+            return r
+    return dict(ok=True, kind="oracle", clause="", sig={}, nontrivial=True, desc=["batch_of=%d" % n, "len=%d" % len(alpha)])
 
 
 def shrink_alpha(case):
+    if "prefix" in case:  # a batch: try its members (short histories; the failing one is named in detail.alpha)
+        for ext in itertools.product(range(NALPHA), repeat=case["extend"]):
+            yield dict(alpha=case["prefix"] + list(ext), backends=case["backends"])
+        return
     h = case["alpha"]
     for i in range(len(h)):
         if len(h) > 1:
@@ -938,9 +958,9 @@ def streams(tier):
     th = tier == "thorough"
     return [
         Stream("atomicity_certificate", gen_certificate, check_certificate, None, parallel=False, timeout=300),
-        Stream("exhaustive", gen_exhaustive(4 if th else 3, 0, 12000 if th else 1500), check_exhaustive, shrink_alpha, timeout=120),
-        Stream("random_histories", gen_random(6000 if th else 600, 200 if th else 60), check_history, shrink_ops, timeout=120),
+        Stream("exhaustive", gen_exhaustive(5 if th else 4, 12000 if th else 1500), check_exhaustive, shrink_alpha, timeout=600),
+        Stream("random_histories", gen_random(8000 if th else 1500, 200 if th else 60), check_history, shrink_ops, timeout=120),
         Stream("reserved_search_keys", gen_random(1500 if th else 200, 40, reserved=True), check_history, shrink_ops, timeout=120),
-        Stream("concurrent_clients", gen_concurrent(48 if th else 6, 400 if th else 150, 8), check_concurrent, shrink_concurrent, timeout=200),
+        Stream("concurrent_clients", gen_concurrent(64 if th else 16, 600 if th else 300, 8), check_concurrent, shrink_concurrent, timeout=200),
         Stream("null_storage", gen_null, check_null, None, timeout=30),
     ]
